@@ -120,7 +120,7 @@ fn closed(rng: &mut Rng, cfg: &g::Cfg, depth: usize, same_arity: bool) -> fol::F
     if same_arity {
         f = fix_arities(f);
     }
-    if rng.chance(92) { f.universal_closure() } else { f }
+    if rng.chance(97) { f.universal_closure() } else { f }
 }
 
 /// make every predicate name occur at one arity only (arity = length of its name's first use)
